@@ -45,7 +45,7 @@ def cases(tier, seed):
         # the same windows on other kinds of grid (window bounds are grid points of that grid)
         if shape not in ('coarse',):
             for gv in shapes.GRID_VARIANTS:
-                if shape == 'plant' and gv.startswith('month_d'):
+                if (shape.startswith('plant') or shape == 'linked') and gv.startswith('month_d'):
                     continue      # durations cannot be converted to steps on a calendar-month grid (pandas refuses 'MS')
                 if tier == 'thorough' or (k, gv) in ((2, 'day_d_cet_dst'), (3, 'month_d'), (5, 'quarter_min')):
                     out.append(('window_%d_%s@%s' % (k, shape, gv), dict(kind='window', shape=shape, kw=dict(kw, gridv=gv))))
